@@ -277,6 +277,9 @@ class ServiceSystem:
         self.model = m2
       except refmodel.Mismatch as e:
         vios.append(self.v(e.clause, kind, pre, e.why, b.kind))
+      except Exception as e:  # pylint: disable=broad-except
+        # the stored state / response has a shape the reference model of the documented API has no reading for
+        vios.append(self.v('model-cannot-explain', kind, pre, 'the response / stored state after %s is malformed for the reference model: %r' % (kind, e), b.kind))
     return vios
 
   def pre_class(self, a, pre):
